@@ -155,6 +155,9 @@ func (m *Features) MarshalBinary() ([]byte, error) {
 }
 
 func (m *Features) UnmarshalBinary(data []byte) error {
+	if len(data) < sizeOfUint32 {
+		return fmt.Errorf("data too short for features: %d bytes", len(data))
+	}
 	*m = Features(unmarshalUint32LE(data))
 	return nil
 }
